@@ -9,7 +9,7 @@ row, query time) equal to the model's, bit for bit; drive rows and interaction m
 `update_H`/`make_H` equal to the model's permuted ones (exact).
 Oracle (always on, real code): dense reference evolution (scipy expm of the piecewise-constant
 Hamiltonian built here from the docstring formula) vs every observable `run_mps` reports (occupation, correlation matrix, energy, energy variance, requested in varying sets and ORDERS), reordering
-on/off, local drives, phases, XY, SLM mask.
+on/off, local drives, phases, XY, mixed-sign couplings, SLM mask; plus: the caller's SequenceData is not mutated by a run.
 """
 from __future__ import annotations
 
@@ -82,6 +82,8 @@ def gen_case(rng, nmax=7, dyadic=True):
     x = gen_register(rng, n)
     xy = rng.random() < 0.25
     U = interaction(x, xy)
+    if rng.random() < 0.3:
+        U = mix_signs(rng, U)
     lat = (lambda a, b: rng.randint(int(a * 8), int(b * 8)) / 8) if dyadic else rng.uniform
     mode = rng.choice(["local", "local", "global", "one-atom"])
     om = [[lat(0, 12) for _ in range(n)] for _ in range(ns)]
@@ -107,6 +109,44 @@ def gen_case(rng, nmax=7, dyadic=True):
         rng.shuffle(perm_tape)
     return dict(n=n, ns=ns, times=times, x=x, xy=xy, U=U, masked=masked, slm=slm, om=om, de=de, ph=ph,
                 reorder=reorder, mode=mode, perm_tape=perm_tape)
+
+
+MUT_CLASS = "mps-caller-data-mutated"
+
+
+def mix_signs(rng, U):
+    """symmetric random signs on the couplings, at least one negative (custom interaction matrices, XY in a tilted field)"""
+    import torch
+    n = U.shape[0]
+    if n < 2:
+        return U
+    S = torch.ones(n, n, dtype=torch.float64)
+    for i in range(n):
+        for j in range(i + 1, n):
+            S[i, j] = S[j, i] = rng.choice([1.0, -1.0])
+    i = rng.randrange(n - 1)
+    S[i, i + 1] = S[i + 1, i] = -1.0
+    return U * S
+
+
+def snapshot(data):
+    """clones of everything the caller handed over inside a SequenceData"""
+    im = data.interaction_matrix
+    return {"omega": data.omega.clone(), "delta": data.delta.clone(), "phi": data.phi.clone(),
+            "interaction full_matrix": im.full_matrix.clone(), "interaction masked_matrix": im.masked_matrix.clone(),
+            "target_times": list(data.target_times)}
+
+
+def mutated(data, snap):
+    """names of the caller's inputs that no longer equal their clone"""
+    import torch
+    im = data.interaction_matrix
+    now = {"omega": data.omega, "delta": data.delta, "phi": data.phi, "interaction full_matrix": im.full_matrix,
+           "interaction masked_matrix": im.masked_matrix}
+    bad = [k for k, v in now.items() if not torch.equal(v, snap[k])]
+    if list(data.target_times) != snap["target_times"]:
+        bad.append("target_times")
+    return bad
 
 
 def make_data(c):
@@ -141,10 +181,13 @@ def run_real(c, k):
             st.enter_context(mock.patch.object(mbi.optimat, "minimize_bandwidth",
                                                lambda m, *a, **k: torch.tensor(c["perm_tape"])))
         try:
-            impl = mbi.MPSBackendImpl(cfg, make_data(c))
+            data = make_data(c)
+            snap = snapshot(data)
+            impl = mbi.MPSBackendImpl(cfg, data)
             impl.init()
             for _ in range(k):
                 impl.progress()
+            tr.mutated = mutated(data, snap)
         except Exception as e:
             status = "err:" + classify_exception(e)
             tr.exc = e
@@ -284,7 +327,7 @@ def dense_reference(om, de, ph, Ufun, times, xy, psi0=None):
     return np.array(occ), np.array(en), np.array(cm), np.array(ev2)
 
 
-def gen_dense(rng, nmax, force_cycle=False):
+def gen_dense(rng, nmax, force_cycle=False, force_mixed=False):
     n = 5 if force_cycle else rng.randint(2, nmax)
     dt = rng.choice([10.0, 5.0, 4.0])
     ns = rng.randint(8, 20)
@@ -296,6 +339,9 @@ def gen_dense(rng, nmax, force_cycle=False):
     if force_cycle:                               # 5 atoms, a 4-cycle: the chain order and its reversal are not self-inverse
         relabel, xy = [1, 2, 3, 0, 4], False
     U = interaction(x, xy)
+    mixed = n >= 2 and (force_mixed or rng.random() < 0.4)
+    if mixed:
+        U = mix_signs(rng, U)      # both Rydberg-type custom matrices and XY get negative couplings
     amp = [rng.uniform(2, 12) for _ in range(n)]
     om = [[amp[j] * math.sin(math.pi * (k + 0.5) / ns + 0.3 * j) ** 2 for j in range(n)] for k in range(ns)]
     de = [[rng.uniform(-10, 10) * ((k + 0.5) / ns - 0.4) + (8.0 if j == 0 else 0.0) for j in range(n)] for k in range(ns)]
@@ -327,7 +373,7 @@ def gen_dense(rng, nmax, force_cycle=False):
     else:
         obs = rng.sample(names, rng.randint(1, 4))
     return dict(n=n, ns=ns, times=times, x=x, xy=xy, U=U, masked=masked, slm=slm, om=om, de=de, ph=ph, dt=dt,
-                relabel=relabel, init=init, obs=obs)
+                relabel=relabel, init=init, obs=obs, mixed=mixed)
 
 
 def dense_tolerance(c, precision):
@@ -373,7 +419,7 @@ def dense_check(c, precision=1e-5):
     c2 = dict(c, U=c["U"][idx][:, idx], masked=c["masked"][idx][:, idx],
               om=[[r[a] for a in rl] for r in c["om"]], de=[[r[a] for a in rl] for r in c["de"]],
               ph=[[r[a] for a in rl] for r in c["ph"]])
-    perms = []
+    perms, muts = [], {}
     import emu_mps.mps_backend_impl as mbi
     from emu_mps.mps import MPS
     from unittest import mock
@@ -394,10 +440,13 @@ def dense_check(c, precision=1e-5):
         try:
             import contextlib
             import io
+            data = make_data(cc)
+            snap = snapshot(data)
             with contextlib.redirect_stdout(io.StringIO()), mock.patch.object(mbi.optimat, "minimize_bandwidth", rec_mb):
-                res = compat.run_mps(make_data(cc), cfg)
+                res = compat.run_mps(data, cfg)
         except Exception as e:
             return f"run_mps raised {type(e).__name__}: {e} (reordering {reorder})", None, stats
+        muts[reorder] = mutated(data, snap)
         if reorder and perms:
             p = perms[-1]
             stats["perm"] = p
@@ -425,8 +474,15 @@ def dense_check(c, precision=1e-5):
             if reorder and not bad_leg[False]:
                 klass = "mps-reordered-run-deviates-dense"   # only the reordered run is wrong
             what = ", ".join(f"|d {o}| = {res_by[reorder][0][o]:.3e} (tol {tols[o]:.3e})" for o in order)
+            if muts.get(reorder):
+                what += f"; the run also mutated the caller's {muts[reorder]}"
+                klass = MUT_CLASS
             return (f"run_mps deviates from dense evolution (reordering {'on' if reorder else 'off'}, observables requested "
                     f"in the order {order}): {what}"), klass, stats
+    for reorder in (False, True):
+        if muts.get(reorder):
+            return (f"run_mps mutated the caller's {muts[reorder]} (reordering {'on' if reorder else 'off'}; compared with a clone "
+                    f"taken before the run)"), MUT_CLASS, stats
     return None, None, stats
 
 
@@ -496,6 +552,9 @@ def check(rep: Report, tier: str, seed: int) -> None:
         rep.hist("drive_mode", c["mode"])
         if status != "ok":
             rep.fail(f"real MPSBackendImpl raised: {status}", _ser(c))
+        if getattr(tr, "mutated", None):
+            rep.fail(f"constructing/running MPSBackendImpl mutated the caller's {tr.mutated} (compared with a clone taken before)",
+                     _ser(c), klass=MUT_CLASS)
         p = ",".join(str(a) for a in perm)
         # drive rows handed to the module-level update_H, in call order
         for kind, kk, o, d, ph in tr.drive_rows:
@@ -606,7 +665,7 @@ def check(rep: Report, tier: str, seed: int) -> None:
     worst = 0.0
     t0 = time.time()
     for di in range(ndense):
-        c = gen_dense(rng, 5 if quick else 6, force_cycle=(di % 6 == 0))
+        c = gen_dense(rng, 5 if quick else 6, force_cycle=(di % 6 == 0), force_mixed=(di % 4 == 2))
         if di % 4 == 1 and c["obs"][:2] != ["correlation_matrix", "occupation"]:
             # always present: the correlation callback first (it leaves the shared state copy centred on the last site)
             c["obs"] = ["correlation_matrix", "occupation"] + [o for o in c["obs"] if o in ("energy", "energy_variance")]
@@ -619,6 +678,7 @@ def check(rep: Report, tier: str, seed: int) -> None:
         for leg in (False, True):
             if leg in stats:
                 worst = max(worst, *stats[leg])
+        rep.hist("dense_mixed_sign_couplings", bool(c.get("mixed")))
         rep.hist("dense_observable_order", ">".join(o[:4] for o in c.get("obs", [])))
         if msg:
             rep.fail(msg, dict(_ser(c), dense=True), klass=klass)
@@ -662,6 +722,8 @@ def replay(rep: Report, path: str) -> int:
             full = total_progress_calls(c["n"], c["ns"])
             status, fin, tr, perm = run_real(c, full)
             msg = None if status == "ok" else status
+            if msg is None and getattr(tr, "mutated", None):
+                msg = f"constructing/running MPSBackendImpl mutated the caller's {tr.mutated}"
             if msg is None and perm != list(range(c["n"])):
                 for kind, kk, o, d, ph in tr.drive_rows:
                     want = [c["de"][kk][a] for a in perm]
